@@ -26,9 +26,9 @@ func (d Dialect) String() string {
 type TokKind int
 
 const (
-	TWord         TokKind = iota // bare word: keyword, function name, bare identifier
-	TQuotedIdent                 // "..." (or `...`)
-	TString                      // '...'
+	TWord        TokKind = iota // bare word: keyword, function name, bare identifier
+	TQuotedIdent                // "..." (or `...`)
+	TString                     // '...'
 	TNumber
 	TOp          // punctuation / operator
 	TPlaceholder // {name:Type}, $1, ?
@@ -55,7 +55,9 @@ func isWordStart(c byte) bool {
 }
 func isWordPart(c byte) bool { return isWordStart(c) || '0' <= c && c <= '9' || c == '$' }
 func isDigit(c byte) bool    { return '0' <= c && c <= '9' }
-func isSpace(c byte) bool    { return c == ' ' || c == '\t' || c == '\n' || c == '\r' || c == '\f' || c == '\v' }
+func isSpace(c byte) bool {
+	return c == ' ' || c == '\t' || c == '\n' || c == '\r' || c == '\f' || c == '\v'
+}
 
 // Lex tokenizes s completely; it never fails: problems are reported as
 // TUnterminated / TBad / TComment tokens which callers forbid.
